@@ -87,6 +87,19 @@ func runC09(c *core.Ctx) {
 		if ps.iter != nil {
 			ps.iter(c, s, w, h)
 		}
+		// a worker that meets a failing element hands it to catch and goes on with the next one when catch says so
+		// (and leaves when it says stop): otherwise every failure takes a worker out of the pool and the rest of the
+		// input is never read (shared with C07)
+		if ps.name == "Map" || ps.name == "FMap" {
+			if c.Rules["error-branch"] == nil {
+				c.Doc("error-branch", 2, "on error: exactly one catch(ctx, err, exx), no output, no second Apply; false => exit, true => loop head")
+			}
+			errIdx := 1
+			if ps.name == "FMap" {
+				errIdx = -1
+			}
+			errorBranchRule(c, s, errIdx)
+		}
 		// every receive from the shared input feeds the element loop: it is a comma-ok receive whose ok is tested on
 		// the same segment, or whose two results become the (element, ok) pair of the loop head (init / post
 		// statement of `for x, ok := <-in; ok; x, ok = <-in`); nothing is received and dropped
@@ -149,6 +162,12 @@ func runC09(c *core.Ctx) {
 		delegation(c, name)
 	}
 	pipefKinds(c)
+	// the closed-world catch implementations of the package: try hands the error off or gives up on cancellation and
+	// answers accordingly, fail-fast sends once and answers false (shared with C06 / C07)
+	catchImplBlocking(c, "pipe/fork")
+	// ... and each exported constructor builds the kind it promises (Lift / Pure / LiftF stop at the first failure,
+	// Try / TryF continue): a Try that answers "stop" takes a worker out of the pool per failure (shared with C07)
+	ctorKinds(c, "pipe/fork")
 }
 
 func parParam(fn *ssa.Function) *ssa.Parameter {
